@@ -798,7 +798,11 @@ def native_dtype_check(G, cls, names, x, T):
     if float(np.sum(np.asarray(x, float)[idx])) == 0.: return None
     keep = x.copy()
     g_obj = np.asarray(G(x, T), float)
-    r = G.f(x, T, *G.args)
+    try:
+        r = G.f(x, T, *G.args)
+    except Exception as ex:
+        return (f'f-differs: {cls} model on {names}, x={keep.tolist()} ({x.dtype} array), T={T}: obj(x, T) = {g_obj.tolist()} but '
+                f'obj.f(x, T, *obj.args) raises {type(ex).__name__} (the functional form cannot be evaluated on the caller\'s array)')
     g_fun = np.asarray(r, float)
     if not np.array_equal(x, keep):
         return f'x-modified: {cls} model on {names}: .f changed the caller\'s {x.dtype} array {keep.tolist()} -> {x.tolist()}'
@@ -965,7 +969,11 @@ def _oracle(case):
         if not abs(gi[i] - 1.) <= 1e-9:
             return f'pure-limit: {cls} model on {case["chems"]}: gamma of {case["chems"][i]} at x_i = 1 is {gi[i]!r}'
         vi = np.zeros(n, dtype=int); vi[i] = 1
-        gf = np.asarray(G.f(vi, T, *G.args), float)
+        try:
+            gf = np.asarray(G.f(vi, T, *G.args), float)
+        except Exception as ex:
+            return (f'pure-limit: {cls} model on {case["chems"]}: the functional form cannot be evaluated on the integer unit vector '
+                    f'e_{i} ({type(ex).__name__}; numba cannot type the kernel for an int array?) while the object gives {gi.tolist()}')
         if not abs(gf[i] - 1.) <= 1e-9 or not close(gf, gi, 1e-12):
             return (f'pure-limit: {cls} model on {case["chems"]}: functional form on the integer unit vector e_{i} gives {gf.tolist()} '
                     f'(object: {gi.tolist()})')
